@@ -1053,6 +1053,9 @@ async fn run_row_once(job: RowJob, tls: Tls, dir: PathBuf, short_ms: u64) -> Opt
     if short {
         st = st.set_conn_timeout(Duration::from_millis(short_ms));
     }
+    if s(row, "timeout") == "huge" {
+        st = st.set_conn_timeout(Duration::MAX);
+    }
     let raw = sockpath.to_string_lossy().to_string();
     let url = job.url_t.replace("{P}", &port.to_string()).replace("{EPL}", &pct(&raw, true)).replace("{EP}", &pct(&raw, false)).replace("{RAWPATH}", &raw);
     let kind = s(v, "kind");
